@@ -2,14 +2,22 @@
 result for any input and schedule (DESIGN.md §3 C06).
 
 Ties on every run against $VERIF_REPO's current tree:
-  E-GEN   sort constants (grainsize via a compiled dumper; min_parallel_size, serial_cutoff, pretest start
-          offset, poll period, median offset divisor from the source text) -> Generated/C06.lean
-  E-PURE  the real quick_sort_range split constructor / median_of_three / pseudo_median_of_nine / is_divisible
-          and quick_sort_pretest_body (white box) vs the Lean model on generated arrays: outputs must be EQUAL
+  E-GEN   sort constants (grainsize via a compiled dumper; min_parallel_size, serial_cutoff, poll period, median offset
+          divisor from the source text); the serial probe's loop start / loop bound / ARGUMENT ORDER of its comp(…) call,
+          the pretest body's argument order and the pretest's first index; start_scan::execute's `treat_as_stolen`
+          expression (value + whether its short-circuit evaluation reads m_left_sum in a stolen task) and
+          start_reduce::execute's lazy-split guard, each translated from the source text -> Generated/C06.lean; the
+          theorems are proved FROM these generated facts (a guard that is not equivalent, a swapped comparison, an
+          uncovered pair break the Lean build)
+  E-PURE  the real quick_sort_range split constructor / median_of_three / pseudo_median_of_nine / is_divisible,
+          quick_sort_pretest_body and the whole parallel_quick_sort on one thread (probe + pretest comparison sequence,
+          return-unsorted decision) (white box) vs the Lean model on generated arrays: outputs must be EQUAL
   E-REAL  real parallel_reduce / parallel_deterministic_reduce / parallel_scan / parallel_sort with recording
-          free-monoid bodies on real threads; implementation-side monitors + the observed event log must be a
-          run of the Lean model (reduce: replay through drv_c06 c06rd; scan: model run under the observed
-          oracle; deterministic reduce: equal split/join term)
+          free-monoid bodies on real threads — including RE-ENTRANT bodies (leaf bodies wait on a task_group inside
+          operator(), so sibling right children run nested on the same thread, not stolen, left sibling unfinished;
+          deterministic with one thread) and FORCED real steals after the left sibling completed; implementation-side
+          monitors + the observed event log must be a run of the Lean model (reduce: replay through drv_c06 c06rd;
+          scan: model run under the observed oracle incl. `early`; deterministic reduce: equal split/join term)
 """
 import json
 import os
@@ -52,14 +60,22 @@ def build_all(ck):
                             flags=flags + ["-fsanitize=address", "-fno-omit-frame-pointer", "-fno-sanitize-recover=all"])
 
 
-def run_lines(exe, lines, timeout=600, env=None):
-    """Feed lines to a line-protocol harness; survive crashes/timeouts: returns one output (or None) per line."""
+SKIPPED = "skipped=1"
+
+
+def run_lines(exe, lines, timeout=600, env=None, max_crashes=5):
+    """Feed lines to a line-protocol harness; survive crashes/timeouts: returns one output per line — None for a line that
+    killed the harness (crash, or the harness' watchdog: the scenario did not return), SKIPPED for lines that were not run
+    because the crash budget was used up (a broken tree may hang in many scenarios; the check must stay bounded)."""
     out = [None] * len(lines)
     start = 0
     crashes = []
     if env is not None:
         env = dict(os.environ, **env)
     while start < len(lines):
+        if len(crashes) >= max_crashes:
+            out[start:] = [SKIPPED] * (len(lines) - start)
+            break
         rc, o, e = sh([exe], input="\n".join(lines[start:]) + "\n", timeout=timeout, env=env)
         got = o.split("\n")
         if got and got[-1] == "":
@@ -69,10 +85,19 @@ def run_lines(exe, lines, timeout=600, env=None):
             break
         k = min(len(got), len(lines) - start - 1)
         out[start:start + k] = got[:k]
-        m = re.search(r"ERROR: AddressSanitizer[^\n]*", e)
+        m = re.search(r"ERROR: AddressSanitizer[^\n]*|WATCHDOG[^\n]*", e)
         crashes.append((start + k, rc, m.group(0) if m else e[-300:]))
         start = start + k + 1          # skip the line that killed the harness
     return out, crashes
+
+
+def not_run(ck, what, outs, crashes, lines):
+    """obligation: every scenario returned (no crash, no hang) and none had to be skipped"""
+    nskip = sum(1 for o in outs if o == SKIPPED)
+    ok = not crashes and not nskip
+    ck.oblige("monitor:every %s scenario returns (no crash, no hang)" % what, "correspondence", ok,
+              "" if ok else "%d scenario(s) killed the harness, e.g. `%s`: %s; %d scenario(s) not run after that" % (
+                  len(crashes), lines[crashes[0][0]][:100] if crashes else "", str(crashes[0][2])[:160] if crashes else "", nskip))
 
 
 def parse_kv(line):
@@ -93,6 +118,114 @@ def parse_kv(line):
 # ---------------------------------------------------------------------------------------------
 # E-GEN
 # ---------------------------------------------------------------------------------------------
+SCAN_H = os.path.join(REPO, "include/oneapi/tbb/parallel_scan.h")
+REDUCE_H = os.path.join(REPO, "include/oneapi/tbb/parallel_reduce.h")
+
+
+def strip_src(path):
+    """source text without comments and without any white space"""
+    t = open(path).read()
+    t = re.sub(r"/\*.*?\*/", "", t, flags=re.S)
+    t = re.sub(r"//[^\n]*", "", t)
+    return re.sub(r"\s+", "", t)
+
+
+class GuardSyntax(Exception):
+    pass
+
+
+def parse_guard(text, atoms):
+    """C++ boolean expression (white-space free) over the given atoms -> AST.
+    atoms: [(regex, name-or-function(match) -> lean term)].  AST: ('atom', lean, name) | ('not', x) | ('and', x, y) | ('or', x, y).
+    Precedence ! > && > ||, parentheses.  Anything else raises GuardSyntax."""
+    toks = []
+    k = 0
+    while k < len(text):
+        for pat, name in atoms:
+            m = re.compile(pat).match(text, k)
+            if m:
+                toks.append(("atom", name(m) if callable(name) else name, name if not callable(name) else "cmp"))
+                k = m.end()
+                break
+        else:
+            if text.startswith("&&", k) or text.startswith("||", k):
+                toks.append((text[k:k + 2],))
+                k += 2
+            elif text[k] in "()!":
+                toks.append((text[k],))
+                k += 1
+            else:
+                raise GuardSyntax("unrecognised operand at `%s`" % text[k:k + 60])
+    pos = [0]
+
+    def peek():
+        return toks[pos[0]][0] if pos[0] < len(toks) else None
+
+    def take():
+        pos[0] += 1
+        return toks[pos[0] - 1]
+
+    def p_or():
+        x = p_and()
+        while peek() == "||":
+            take()
+            x = ("or", x, p_and())
+        return x
+
+    def p_and():
+        x = p_not()
+        while peek() == "&&":
+            take()
+            x = ("and", x, p_not())
+        return x
+
+    def p_not():
+        if peek() == "!":
+            take()
+            return ("not", p_not())
+        if peek() == "(":
+            take()
+            x = p_or()
+            if peek() != ")":
+                raise GuardSyntax("unbalanced parentheses")
+            take()
+            return x
+        if peek() == "atom":
+            return take()
+        raise GuardSyntax("operand expected")
+    x = p_or()
+    if pos[0] != len(toks):
+        raise GuardSyntax("trailing tokens")
+    return x
+
+
+def lean_val(x):
+    if x[0] == "atom":
+        return x[1]
+    if x[0] == "not":
+        return "(!%s)" % lean_val(x[1])
+    return "(%s %s %s)" % (lean_val(x[1]), "&&" if x[0] == "and" else "||", lean_val(x[2]))
+
+
+def lean_reads(x, what):
+    """Bool term: does the short-circuit evaluation of x evaluate the atom named `what`?"""
+    if x[0] == "atom":
+        return "true" if x[1] == what else "false"
+    if x[0] == "not":
+        return lean_reads(x[1], what)
+    if x[0] == "and":
+        return "(%s || (%s && %s))" % (lean_reads(x[1], what), lean_val(x[1]), lean_reads(x[2], what))
+    return "(%s || (!%s && %s))" % (lean_reads(x[1], what), lean_val(x[1]), lean_reads(x[2], what))
+
+
+def deref_offset(arg):
+    """`*k` / `*(k)` / `*(k+N)` / `*(k-N)` -> offset"""
+    m = re.fullmatch(r"\*(?:k|\(k(?:([+-])(\d+))?\))", arg)
+    if not m:
+        return None
+    return 0 if m.group(1) is None else int(m.group(2)) * (1 if m.group(1) == "+" else -1)
+
+
 def gen(ck):
     ck.libs = tbb_link()
     exe = cxx_build(PID, "consts", [H + "consts.cpp"], flags=["-O1", "-fno-access-control", "-pthread"], libs=ck.libs)
@@ -103,7 +236,6 @@ def gen(ck):
         "minParallelSize": r"constexpr\s+int\s+min_parallel_size\s*=\s*(\d+)\s*;",
         "serialCutoff": r"constexpr\s+int\s+serial_cutoff\s*=\s*(\d+)\s*;",
         "pretestPoll": r"i\s*%\s*(\d+)\s*==\s*0\s*&&\s*context\.is_group_execution_cancelled\(\)",
-        "pretestStartOffset": r"blocked_range<RandomAccessIterator>\(\s*k\s*\+\s*(\d+)\s*,\s*end\s*\)",
         "medianDivisor": r"offset\s*=\s*range\.size\s*/\s*(\d+)u?\s*;",
     }
     bad = []
@@ -113,26 +245,97 @@ def gen(ck):
             c[k] = int(m.group(1))
         else:
             bad.append(k)
-    ck.extra["generated_constants"] = c
-    ck.oblige("gen:sort-constants-recognised", "generated", not bad,
-              "not found in parallel_sort.h: %s" % bad if bad else c)
     defaults = {"sortGrainsize": 500, "minParallelSize": 500, "serialCutoff": 9, "pretestPoll": 64,
-                "pretestStartOffset": 1, "medianDivisor": 8}
-    order = ["sortGrainsize", "minParallelSize", "serialCutoff", "pretestPoll", "pretestStartOffset", "medianDivisor"]
-    body = "".join("def %s : Nat := %d\n" % (k, c.get(k, defaults[k])) for k in order)
+                "pretestBegin": 10, "medianDivisor": 8, "probeStart": 0, "probeEnd": 9, "probeArg1": 1, "probeArg2": 0,
+                "pretestArg1": 1, "pretestArg2": 0}
+    # --- the serial probe of parallel_quick_sort: loop start, loop bound, argument order of its comp(…) call
+    ws = strip_src(SORT_H)
+    ARG = r"\*(?:k|\(k(?:[+-]\d+)?\))"
+    m = re.search(r"RandomAccessIteratork=begin(?:\+(\d+))?;for\(;k!=begin((?:[+-](?:\d+|serial_cutoff))*);\+\+k\)\{?if\(comp\((%s),(%s)\)\)\{?do_parallel_quick_sort" % (ARG, ARG), ws)
+    probe_ok = False
+    if m:
+        bound = m.group(2).replace("serial_cutoff", str(c.get("serialCutoff", 9)))
+        o1, o2 = deref_offset(m.group(3)), deref_offset(m.group(4))
+        try:
+            end = eval(bound or "0", {"__builtins__": {}})
+        except Exception:
+            end = None
+        if end is not None and end >= 0 and o1 is not None and o2 is not None and o1 >= 0 and o2 >= 0:
+            c.update(probeStart=int(m.group(1) or 0), probeEnd=int(end), probeArg1=o1, probeArg2=o2)
+            probe_ok = True
+    # first index of the parallel pretest: `blocked_range<…>(k + N, end)` (k = the probe loop's final value) or `begin + EXPR`
+    m = re.search(r"parallel_for\(blocked_range<RandomAccessIterator>\((k|begin)((?:[+-](?:\d+|serial_cutoff))*),end\),quick_sort_pretest_body", ws)
+    pb_ok = False
+    if m and probe_ok:
+        try:
+            off = eval(m.group(2).replace("serial_cutoff", str(c.get("serialCutoff", 9))) or "0", {"__builtins__": {}})
+            pb = off + (c["probeEnd"] if m.group(1) == "k" else 0)
+            if pb >= 0:
+                c["pretestBegin"] = int(pb)
+                pb_ok = True
+        except Exception:
+            pass
+    ck.oblige("gen:pretest-range-recognised", "generated", pb_ok,
+              "" if pb_ok else "`parallel_for(blocked_range<RandomAccessIterator>(k + 1, end), quick_sort_pretest_body…` not found in parallel_quick_sort")
+    ck.oblige("gen:serial-probe-loop-recognised", "generated", probe_ok,
+              "" if probe_ok else "`RandomAccessIterator k = begin; for(; k != begin + serial_cutoff; ++k) if (comp(*(k±a), *(k±b))) do_parallel_quick_sort…` "
+              "not found in parallel_quick_sort")
+    m = re.search(r"if\(comp\((%s),(%s)\)\)\{?context\.cancel_group_execution\(\)" % (ARG, ARG), ws)
+    pre_ok = False
+    if m:
+        o1, o2 = deref_offset(m.group(1)), deref_offset(m.group(2))
+        if o1 is not None and o2 is not None and o1 >= -1 and o2 >= -1:
+            c.update(pretestArg1=o1 + 1, pretestArg2=o2 + 1)
+            pre_ok = True
+    ck.oblige("gen:pretest-test-recognised", "generated", pre_ok,
+              "" if pre_ok else "`if (comp(*(k±a), *(k±b))) context.cancel_group_execution()` not found in quick_sort_pretest_body")
+    ck.oblige("gen:sort-constants-recognised", "generated", not bad,
+              "not found in parallel_sort.h: %s" % bad if bad else {k: c.get(k) for k in defaults})
+    order = ["sortGrainsize", "minParallelSize", "serialCutoff", "pretestPoll", "pretestBegin", "medianDivisor",
+             "probeStart", "probeEnd", "probeArg1", "probeArg2", "pretestArg1", "pretestArg2"]
+    body = "set_option linter.unusedVariables false\n"
+    body += "".join("def %s : Nat := %d\n" % (k, c.get(k, defaults[k])) for k in order)
+    # --- start_scan::execute's treat_as_stolen, translated from the source text (value + does its short-circuit evaluation
+    #     read m_parent->m_result.m_left_sum)
+    scan_default = ("and", ("atom", "isRight", ""), ("or", ("atom", "stolen", ""), ("atom", "bodyNeLeftSum", "")))
+    sws = strip_src(SCAN_H)
+    guard, why = None, "`bool treat_as_stolen = …;` not found in start_scan::execute"
+    m = re.search(r"booltreat_as_stolen=(.*?);", sws)
+    if m:
+        try:
+            guard = parse_guard(m.group(1), [
+                (r"&m_body\.get\(\)!=m_parent->m_result\.m_left_sum", "bodyNeLeftSum"),
+                (r"m_parent->m_result\.m_left_sum!=&m_body\.get\(\)", "bodyNeLeftSum"),
+                (r"m_is_right_child", "isRight"),
+                (r"is_stolen\(ed\)", "stolen")])
+        except GuardSyntax as e:
+            why = "treat_as_stolen = %s: %s" % (m.group(1)[:120], e)
+    ck.oblige("gen:scan-guard-recognised (treat_as_stolen over is_right_child / is_stolen(ed) / &m_body != m_left_sum)", "generated",
+              guard is not None, "" if guard is not None else why)
+    g = guard or scan_default
+    body += "def scanTreatAsStolen (isRight stolen bodyNeLeftSum : Bool) : Bool := %s\n" % lean_val(g)
+    body += "def scanGuardReadsLeftSum (isRight stolen bodyNeLeftSum : Bool) : Bool := %s\n" % lean_reads(g, "bodyNeLeftSum")
+    c["scanTreatAsStolen"] = lean_val(g)
+    # --- start_reduce::execute's lazy body split
+    red_default = ("and", ("atom", "isRight", ""), ("atom", "(parentRef == 2)", ""))
+    rws = strip_src(REDUCE_H)
+    rguard, why = None, "`if (is_right_child && my_parent->m_ref_count.load(acquire) == 2) { tree_node_type* parent_ptr …` not found in start_reduce::execute"
+    m = re.search(r"if\(((?:(?!if\().)*?)\)\{tree_node_type\*parent_ptr=static_cast<tree_node_type\*>\(my_parent\);my_body=", rws)
+    if m:
+        try:
+            rguard = parse_guard(m.group(1), [
+                (r"my_parent->m_ref_count\.load\((?:std::memory_order_\w+)?\)==(\d+)", lambda mm: "(parentRef == %s)" % mm.group(1)),
+                (r"(\d+)==my_parent->m_ref_count\.load\((?:std::memory_order_\w+)?\)", lambda mm: "(parentRef == %s)" % mm.group(1)),
+                (r"is_right_child", "isRight"),
+                (r"is_stolen\(ed\)", "stolen")])
+        except GuardSyntax as e:
+            why = "lazy split guard %s: %s" % (m.group(1)[:120], e)
+    ck.oblige("gen:reduce-split-guard-recognised (over is_right_child / parent's m_ref_count == N / is_stolen(ed))", "generated",
+              rguard is not None, "" if rguard is not None else why)
+    body += "def reduceSplitsBody (isRight : Bool) (parentRef : Nat) (stolen : Bool) : Bool := %s\n" % lean_val(rguard or red_default)
+    c["reduceSplitsBody"] = lean_val(rguard or red_default)
+    ck.extra["generated_constants"] = c
     gen_write(PID, body)
-    # the serial probe must stop exactly one element before the first pretest index: structural guard
-    m = re.search(r"for\(\s*;\s*k\s*!=\s*begin\s*\+\s*serial_cutoff\s*;\s*\+\+k\s*\)\s*\{\s*if\(\s*comp\(\s*\*\(\s*k\s*\+\s*1\s*\)\s*,\s*\*k\s*\)\s*\)", src)
-    ck.oblige("gen:serial-probe-loop-recognised", "generated", bool(m),
-              "" if m else "`for(; k != begin + serial_cutoff; ++k) if (comp(*(k+1), *k))` not found in parallel_quick_sort")
-    # start_scan's virtual steal: under the runtime's oldest-first stealing no sampled run takes the
-    # `&m_body != m_left_sum` branch with is_stolen(ed) false, so this guard is tied textually (the model's `treatAsStolen`)
-    scan_src = re.sub(r"\s+", "", re.sub(r"//[^\n]*", "", open(os.path.join(REPO, "include/oneapi/tbb/parallel_scan.h")).read()))
-    guards = ["booltreat_as_stolen=m_is_right_child&&(is_stolen(ed)||&m_body.get()!=m_parent->m_result.m_left_sum);",
-              "booltreat_as_stolen=m_is_right_child&&(&m_body.get()!=m_parent->m_result.m_left_sum||is_stolen(ed));"]
-    ok = any(gd in scan_src for gd in guards)
-    ck.oblige("gen:scan treat_as_stolen guard == model (is_right_child && (is_stolen || m_body != parent's m_left_sum))", "generated", ok,
-              "" if ok else "start_scan::execute no longer computes treat_as_stolen as the model does")
     return c
 
 
@@ -160,6 +363,57 @@ def sorted_for(c, n, base=0):
         xs = list(range(base, base + n))
         return sorted(xs, key=lambda x: (x % m, x))
     return list(range(base, base + n))
+
+
+CMP_NAME = {"lt": "less", "gt": "greater", "div3": "key/3", "div100": "key/100", "mod7": "key%7"}
+
+
+def key_for(c, r, j=0):
+    """a key of rank r (0..6) w.r.t. comparator c; j varies the key among equivalent ones (key projections)"""
+    if c == "lt":
+        return 10 + r
+    if c == "gt":
+        return 100 - r
+    if c.startswith("div"):
+        d = int(c[3:])
+        return d * (r + 1) + j % d
+    m = int(c[3:])
+    return m * (j % 5) + r
+
+
+def prefix_families(ck, c, sizes=(499, 500, 501, 777, 2048), nrandom=6):
+    """inputs whose only descents lie inside (or just outside) the first ten elements — the part that the 9-comparison
+    serial probe of parallel_quick_sort is responsible for — while everything from pair (9,10) on is non-decreasing:
+      prefix-descent    all keys equal except ONE smaller key at position pos            (pos 0..11)
+      prefix-step-down  1,…,1,0,0,…  with the step at position pos                        (pos 1..11)
+      prefix-step-tail  3,…,3,0,…,0 then a non-decreasing tail 0…6                        (pos 1..11)
+      prefix-random     ten random non-increasing keys with a strict descent, then non-decreasing (pos = first descent)
+    returns [(family, pos, ranks)] per size; keys are made with key_for(c, rank)"""
+    rng = ck.rng
+    res = []
+    for n in sizes:
+        for pos in range(0, 12):
+            r = [1] * n
+            r[pos] = 0
+            res.append(("prefix-descent", pos, r))
+        for pos in range(1, 12):
+            res.append(("prefix-step-down", pos, [1] * pos + [0] * (n - pos)))
+        for pos in range(1, 12):
+            head = [3] * pos + [0] * (max(10, pos) - pos)
+            m = n - len(head)
+            res.append(("prefix-step-tail", pos, head + [min(6, (i * 7) // m) for i in range(m)]))
+        for _ in range(nrandom):
+            head = sorted((rng.randrange(0, 7) for _ in range(10)), reverse=True)
+            if head[0] == head[-1]:
+                head[0] = min(6, head[0] + 1)
+                head[-1] = max(0, head[0] - 1)
+            pos = next(i for i in range(1, 10) if head[i] < head[i - 1])
+            tail = sorted(rng.randrange(head[-1], 7) for _ in range(n - 10))
+            res.append(("prefix-random", pos, head + tail))
+    out = []
+    for fam, pos, ranks in res:
+        out.append((fam, pos, [key_for(c, r, (7 * i + 3) % 11) for i, r in enumerate(ranks)]))
+    return out
 
 
 def split_arrays(ck):
@@ -283,11 +537,37 @@ def run_pure(ck):
                 lo = rng.choice([10, 1, max(1, p - 70), max(1, p)])
                 lines.append("pretest %s %d %d %d %s" % (c, lo, n, n, " ".join(map(str, a))))
                 meta.append(("pretest", "one-inversion", c, a))
+    # the whole parallel_quick_sort on one thread (serial probe + pretest + sort): first comparisons and the
+    # "already sorted, return as is" decision vs the model; output must be a sorted permutation
+    for c in (["lt", "gt", "div3"] if quick else CMPS):
+        for fam, pos, a in prefix_families(ck, c, sizes=(500, 501, 777, 2048) if quick else (500, 501, 502, 512, 777, 2048, 4097), nrandom=4 if quick else 30):
+            lines.append("pqs %s %d %s" % (c, len(a), " ".join(map(str, a))))
+            meta.append(("pqs", "%s:pos=%d" % (fam, pos), c, a))
+        for n in (500, 777):
+            sa = sorted_for(c, n)
+            lines.append("pqs %s %d %s" % (c, n, " ".join(map(str, sa))))
+            meta.append(("pqs", "sorted", c, sa))
+            for p in list(range(0, 13)) + [n // 2, n - 2]:
+                a = list(sa)
+                a[p], a[p + 1] = a[p + 1], a[p]
+                lines.append("pqs %s %d %s" % (c, n, " ".join(map(str, a))))
+                meta.append(("pqs", "one-inversion:pos=%d" % p, c, a))
     impl, crashes = run_lines(ck.exe_pure, lines, timeout=1800)
     model = drv("c06", "\n".join(lines) + "\n", timeout=1800)
+    pqs_bad = []
+    for i, (op, cls, c, a) in enumerate(meta):
+        if op != "pqs" or impl[i] is None:
+            continue
+        di, dm = parse_kv(impl[i]), parse_kv(model[i])
+        if di.get("sorted") != "1" or di.get("perm") != "1":
+            pqs_bad.append((i, "parallel_quick_sort returns %s (first unsorted index %s; skipped without sorting: %s)" % (
+                "an unsorted array" if di.get("sorted") != "1" else "something that is not a permutation of the input", di.get("first"), di.get("skipped"))))
+        # compare with the model: same decision, and the implementation's comparison sequence starts with the model's
+        ti, tm = di.get("trace", ""), dm.get("trace", "")
+        impl[i] = "skipped=%s trace=%s" % (di.get("skipped"), ti[:len(tm)] if ti.startswith(tm) and (len(ti) == len(tm) or ti[len(tm):len(tm) + 1] == ",") else ti)
     kinds = {}
     for (op, cls, c, a) in meta:
-        kinds[op + ":" + cls] = kinds.get(op + ":" + cls, 0) + 1
+        kinds[op + ":" + cls.split(":")[0]] = kinds.get(op + ":" + cls.split(":")[0], 0) + 1
     ck.extra["pure_input_distribution"] = kinds
     mism, post = [], []
     for i, (ln, im, mo) in enumerate(zip(lines, impl, model)):
@@ -302,13 +582,18 @@ def run_pure(ck):
     i0 = len(lines) // 3
     ck.sample({"engine": "E-PURE", "input": lines[i0][:200], "impl": (impl[i0] or "")[:200], "model": model[i0][:200]})
     ck.oblige("corr:quick_sort_range (split_range result array, pivot position, sizes; median_of_three; "
-              "pseudo_median_of_nine; is_divisible) and pretest body == model", "correspondence", not mism and not crashes,
+              "pseudo_median_of_nine; is_divisible), pretest body and parallel_quick_sort's probe/pretest comparison sequence "
+              "+ return-unsorted decision == model", "correspondence", not mism and not crashes,
               "" if not mism and not crashes else "first mismatch %s: impl %r model %r; crashes %s" % (
                   lines[mism[0]][:160] if mism else None, (impl[mism[0]] or "")[:120] if mism else None,
                   model[mism[0]][:120] if mism else None, crashes[:2]))
     ck.oblige("monitor:split_range postcondition on the implementation (permutation, left <= pivot <= right, pivot "
               "excluded, sizes add up, both parts smaller)", "correspondence", not post,
               "" if not post else "%s on %s" % (post[0][1], lines[post[0][0]][:160]))
+    ck.oblige("monitor:parallel_quick_sort (probe + pretest + sort, one thread) leaves a sorted permutation on inputs whose descents "
+              "are confined to the first ten elements (every position 0..11, sizes 500..2048, 3+ comparators)", "correspondence",
+              not pqs_bad, "" if not pqs_bad else "%s: %s" % (lines[pqs_bad[0][0]][:100], pqs_bad[0][1]))
+    ck.pqs_failures = [(lines[i], why, meta[i]) for i, why in pqs_bad]
     ck.pure_failures = {"mism": [(lines[i], impl[i], model[i], meta[i]) for i in mism[:50]],
                         "post": [(lines[i], why, meta[i]) for i, why in post[:50]],
                         "crashes": [(lines[i], rc) for i, rc, _ in crashes[:10]]}
@@ -414,11 +699,35 @@ def reduce_scenarios(ck):
         if part == "simple" and n // g > 600:
             g = max(g, n // 300)
         sc.append((rng.choice(["L", "B"]), part, n, g, rng.choice([1, 2, 3, 4, 5, 8, 12, 16]), rng.randrange(1 << 30), rng.choice([0, 20, 60, 200])))
+    sc = [x + (0,) for x in sc]
+    # re-entrant bodies (see real.cpp): with one thread every right child is popped by its owner inside a left leaf's body
+    for n in ([2, 3, 4, 5, 8, 13, 16, 33] if quick else list(range(2, 34)) + [64, 100]):
+        for g in ([1, 2, 3] if quick else [1, 2, 3, 5]):
+            if g >= n:
+                continue
+            for re_mode in ([1, 2, 3, 4, 7, 8, 13, 14] if quick else range(1, 19)):
+                sc.append(("L", "simple", n, g, 1, rng.randrange(1 << 30), 0, re_mode))
+            for part in ("auto", "static", "affinity"):
+                sc.append(("L", part, n, g, 1, rng.randrange(1 << 30), 0, rng.choice([1, 2, 7, 8])))
+    for _ in range(1000 if quick else 10000):
+        n = rng.choice([2, 3, 4, 5, 8, 13, 16, 33, 64])
+        sc.append(("L", rng.choice(["simple", "simple", "auto", "affinity"]), n, rng.choice([1, 2, 3]), rng.choice([2, 3, 4, 8]), rng.randrange(1 << 30),
+                   rng.choice([0, 20, 60]), rng.randrange(1, 19)))
     return sc
 
 
 def reduce_line(s):
-    return "reduce %s %s %d %d %d %d %d" % s
+    return "reduce %s %s %d %d %d %d %d" % s[:7] + (" re=%d" % s[7] if s[7] else "")
+
+
+def reduce_verdict(o, n):
+    d = parse_kv(o)
+    if o is None or ("log" not in d and n > 0 and "value" not in d):
+        return ("crash", "harness crashed / no output")
+    want = "e" if n == 0 else "0-%d" % (n - 1)
+    if d.get("value") != want:
+        return ("result", "value=%s expected %s" % (d.get("value"), want))
+    return bim_monitor(canon_reduce(d.get("log", [])), n)
 
 
 def replay_lines(evs, n):
@@ -445,14 +754,18 @@ def replay_lines(evs, n):
 
 def run_reduce(ck):
     scs = reduce_scenarios(ck)
+    scs.sort(key=lambda x: 0 if x[7] and x[4] == 1 else 1)      # the deterministic one-thread re-entrant scenarios first
     lines = [reduce_line(s) for s in scs]
     outs, crashes = run_lines(ck.exe_real, lines, timeout=1800)
+    not_run(ck, "reduce", outs, crashes, lines)
     bad_val, bad_mon, bad_serial, bad_replay = [], [], [], []
     serial_q, serial_ix = [], []
     replay_txt, replay_ix, replay_len = [], [], []
-    nsplit = 0
+    nsplit = nsplit_nested = 0
     for i, (s, o) in enumerate(zip(scs, outs)):
-        rk, part, n, g, T, seed, delay = s
+        rk, part, n, g, T, seed, delay, re_mode = s
+        if o == SKIPPED:
+            continue
         d = parse_kv(o)
         if o is None or "log" not in d and n > 0 and "value" not in d:
             bad_val.append((i, "harness crashed / no output"))
@@ -461,7 +774,9 @@ def run_reduce(ck):
         want = "e" if n == 0 else "0-%d" % (n - 1)
         ns = sum(1 for e in evs if e[0] == "S")
         nsplit += ns
-        ck.count(1, (rk, part, min(n, 50), g, T, min(ns, 6)))
+        if re_mode and T == 1:
+            nsplit_nested += ns
+        ck.count(1, (rk, part, min(n, 50), g, T, min(ns, 6), re_mode))
         if d.get("value") != want:
             bad_val.append((i, "value=%s expected %s" % (d.get("value"), want)))
         m = bim_monitor(evs, n)
@@ -470,7 +785,7 @@ def run_reduce(ck):
         if d.get("overflow") == "1":
             continue
         if rk == "L" and part == "simple":
-            if T == 1:
+            if T == 1 and not re_mode:
                 serial_q.append("serial %d 0 %d" % (g, n))
                 serial_ix.append((i, evs))
             else:
@@ -506,7 +821,9 @@ def run_reduce(ck):
                 bad_replay.append((i, (fails[0] if fails else "final state: " + seg[-1])))
             ck.traces_validated += 1
     ck.extra["reduce_runs"] = len(scs)
+    ck.extra["reduce_reentrant_runs"] = sum(1 for x in scs if x[7])
     ck.extra["reduce_body_splits_observed"] = nsplit
+    ck.extra["reduce_body_splits_by_unstolen_right_children_inside_a_left_leaf_body (1 thread)"] = nsplit_nested
     ck.oblige("monitor:parallel_reduce result == sequential fold in order (free monoid: every element once, nothing reordered)",
               "correspondence", not bad_val and not crashes, "" if not bad_val else "%s: %s" % (lines[bad_val[0][0]], bad_val[0][1]))
     ck.oblige("monitor:every join(partner) joins the body it was split from, after both finished, adjacent operands in order",
@@ -516,7 +833,24 @@ def run_reduce(ck):
     ck.oblige("corr:observed split/run/join/offer events under real steals are enabled transitions of the ReduceTree model",
               "correspondence", not bad_replay, "" if not bad_replay else "%s: %s" % (lines[bad_replay[0][0]], bad_replay[0][1]))
     fails = [(i, "result", w) for i, w in bad_val] + [(i, m[0], m[1]) for i, m in bad_mon]
-    if fails:
+    re_fails = [f for f in fails if scs[f[0]][7]]
+    if re_fails:
+        i, kind, text = min(re_fails, key=lambda f: (scs[f[0]][4], scs[f[0]][2], scs[f[0]][3], scs[f[0]][7]))
+        rk, part, n, g, T, seed, delay, re_mode = scs[i]
+        plain = reduce_line(scs[i][:7] + (0,))
+        po, _ = run_lines(ck.exe_real, [plain] * 3, timeout=120, max_crashes=1)
+        pv = [v for v in (reduce_verdict(o, n) for o in po if o != SKIPPED) if v]
+        if pv:
+            ck.counterexample("reduce:%s:%s:n=%d:grain=%d:threads=%d" % (pv[0][0], part, n, g, T),
+                              "parallel_reduce: %s (scenario `%s`)" % (pv[0][1], plain),
+                              {"engine": "E-REAL", "harness": H + "real.cpp", "stdin": plain, "repeat": 5, "monitor": "reduce", "n": n, "observed": pv[0][1]})
+            return
+        ck.counterexample("reduce:reentrant-body:%s:n=%d:grain=%d:threads=%d:re=%d:%s" % (part, n, g, T, re_mode, kind),
+                          "parallel_reduce whose leaf bodies wait on a task_group inside operator() (the nested wait runs the sibling right child on "
+                          "the same thread, not stolen, while the left sibling is unfinished): %s (scenario `%s`)" % (text, lines[i]),
+                          {"engine": "E-REAL", "harness": H + "real.cpp", "stdin": lines[i], "repeat": 20 if T == 1 else 200, "monitor": "reduce", "n": n,
+                           "observed": text})
+    elif fails:
         report_real_failure(ck, "reduce", lines, fails)
     elif bad_serial or bad_replay:
         search_reduce(ck)
@@ -570,7 +904,7 @@ def search_reduce(ck):
     for _ in range(1500):
         n = rng.choice([2, 3, 4, 8, 16, 33, 100, 1000])
         sc.append((rng.choice(["L", "B"]), rng.choice(["simple", "auto", "static", "affinity"]), n, rng.choice([1, 2, 7]),
-                   rng.choice([1, 2, 4, 8, 16]), rng.randrange(1 << 30), rng.choice([0, 50, 300])))
+                   rng.choice([1, 2, 4, 8, 16]), rng.randrange(1 << 30), rng.choice([0, 50, 300]), 0))
     lines = [reduce_line(s) for s in sc]
     outs, _ = run_lines(ck.exe_real, lines, timeout=1800)
     fails = []
@@ -617,14 +951,26 @@ def run_det(ck):
             for rep in range(3 if quick else 10):
                 lines.append("det %s %d %d %d %d %d" % (part, n, g, T, rng.randrange(1 << 30), rng.choice([0, 30, 100])))
                 meta.append((part, n, g, T))
+    # re-entrant bodies (LRange, simple_partitioner): same tree as every other run of the same (n, grain)
+    nre = 0
+    for part, n, g in cfgs:
+        if part == "simple" and 2 <= n <= 100 and n // g <= 64:
+            for T, re_mode in [(1, 1), (1, 2), (1, 8), (rng.choice([2, 4]), rng.randrange(1, 19))]:
+                lines.append("det simple %d %d %d %d %d re=%d" % (n, g, T, rng.randrange(1 << 30), 0, re_mode))
+                meta.append((part, n, g, T))
+                nre += 1
+    ck.extra["det_reentrant_runs"] = nre
     outs, crashes = run_lines(ck.exe_real, lines, timeout=1800)
     # model terms
     q, qi = [], {}
     seen = {}
     bad_same, bad_model = [], []
+    not_run(ck, "deterministic reduce", outs, crashes, lines)
     for i, (m, o) in enumerate(zip(meta, outs)):
         part, n, g, T = m
         d = parse_kv(o)
+        if o == SKIPPED:
+            continue
         if "term" not in d:
             bad_same.append((i, "no output"))
             continue
@@ -726,12 +1072,18 @@ def canon_scan(evs, model_side):
     return sorted(out, key=lambda t: tuple(str(x) for x in t))
 
 
-def scan_oracle(evs, g):
-    """what the real run read: the right children that were treated as stolen, and divisible ranges that
-    should_execute_range kept whole"""
-    stolen, dset, xset = [], [], set()
+def scan_oracle(evs, g, reentrant=False):
+    """what the real run read: the right children that were treated as stolen — split into those that started while a
+    leaf body was active on the same thread (re-entrant body: popped by their owner inside the body's nested wait,
+    `early` in the model) and the others (`stolen`) — and divisible ranges that should_execute_range kept whole"""
+    stolen, early, dset, xset = [], [], [], set()
+    depth = {}
     first_s = True
     for i, e in enumerate(evs):
+        if reentrant and e[0] in ("P", "F"):
+            depth[e[-1]] = depth.get(e[-1], 0) + 1
+        elif reentrant and e[0] == "E":
+            depth[e[-1]] = depth.get(e[-1], 0) - 1
         if e[0] == "S":
             if first_s:
                 first_s = False
@@ -739,14 +1091,61 @@ def scan_oracle(evs, g):
             for f in evs[i + 1:]:
                 if f[-1] == e[-1]:
                     if f[0] == "D":
-                        stolen.append((f[1], f[2]))
+                        (early if reentrant and depth.get(e[-1], 0) > 0 else stolen).append((f[1], f[2]))
                     break
         elif e[0] == "D":
             dset.append((e[1], e[2]))
         elif e[0] == "X":
             xset.add((e[1], e[3]))
     execs = [r for r in dset if r[1] - r[0] > g and r not in xset]
-    return stolen, execs
+    return stolen, execs, early
+
+
+def steal_discipline(evs):
+    """pass 1: a right child [mid,hi) that starts on another thread than the one that spawned it was REALLY stolen; its left
+    sibling may be running concurrently, so it must begin by splitting a fresh body (S, then is_divisible D) and must not
+    continue on its parent's body.  The first X lo mid hi is the pass-1 split (pass 2 repeats it); the child's first
+    action is looked for before that repetition.  Returns None or (kind, text)."""
+    seen = set()
+    for i, e in enumerate(evs):
+        if e[0] != "X":
+            continue
+        lo, mid, hi, ts = e[1], e[2], e[3], e[-1]
+        if (lo, mid, hi) in seen:
+            continue
+        seen.add((lo, mid, hi))
+        for j in range(i + 1, len(evs)):
+            f = evs[j]
+            if f[0] == "X" and (f[1], f[2], f[3]) == (lo, mid, hi):
+                break
+            if (f[0] == "D" and (f[1], f[2]) == (mid, hi)) or (f[0] in ("P", "F") and (f[2], f[3]) == (mid, hi)):
+                if f[-1] != ts:
+                    prev = next((evs[k] for k in range(j - 1, -1, -1) if evs[k][-1] == f[-1]), None)
+                    if f[0] != "D" or prev is None or prev[0] != "S":
+                        return ("stolen-child-shares-body", "right child [%d,%d) was spawned by thread %d and runs on thread %d (really stolen) "
+                                "but does not split a fresh body: it %s-scans on body %s, its parent's" % (
+                                    mid, hi, ts, f[-1], "final" if f[0] == "F" else "pre", f[1] if f[0] != "D" else "?"))
+                break
+    return None
+
+
+def scan_verdict(o, n):
+    """all implementation-side monitors on one scan output line: None or (kind, text)"""
+    d = parse_kv(o)
+    if o is None or "value" not in d:
+        return ("crash", "harness crashed / no output")
+    evs = d.get("log", [])
+    m = scan_monitor(evs, n)
+    if m:
+        return m
+    want = "e" if n == 0 else "0-%d" % (n - 1)
+    if d.get("value") != want:
+        return ("total", "returned total %s, expected %s" % (d.get("value"), want))
+    return steal_discipline(evs)
+
+
+def scan_line(sc):
+    return "scan %s %d %d %d %d %d" % sc[:6] + (" re=%d" % sc[6] if sc[6] else "")
 
 
 def run_scan(ck):
@@ -756,20 +1155,42 @@ def run_scan(ck):
     for n in ([0, 1, 2, 3, 4, 7, 8, 16, 33, 100] if quick else list(range(0, 34)) + [64, 100, 257, 1000]):
         for g in ([1, 2, 5] if quick else [1, 2, 3, 5, 16]):
             for part in ("simple", "auto"):
-                sc.append((part, n, g, 1, 0, 0))
+                sc.append((part, n, g, 1, 0, 0, 0))
     for _ in range(3000 if quick else 60000):
         n = rng.choice([2, 3, 4, 5, 8, 13, 16, 33, 64, 100, 257, 1000, rng.randrange(2, 600)])
         g = rng.choice([1, 2, 3, 7, 16, 50])
         if n // g > 500:
             g = max(g, n // 250)
-        sc.append((rng.choice(["simple", "auto"]), n, g, rng.choice([2, 3, 4, 8, 16]), rng.randrange(1 << 30), rng.choice([0, 30, 100, 400])))
-    lines = ["scan %s %d %d %d %d %d" % s for s in sc]
+        sc.append((rng.choice(["simple", "auto"]), n, g, rng.choice([2, 3, 4, 8, 16]), rng.randrange(1 << 30), rng.choice([0, 30, 100, 400]), 0))
+    # re-entrant bodies: leaf bodies wait on a task_group inside operator(); with ONE thread nothing is ever stolen and every
+    # right child is popped by its owner inside a left leaf's body (deterministic); also with real threads
+    for n in ([2, 3, 4, 5, 8, 13, 16, 33] if quick else list(range(2, 34)) + [64, 100]):
+        for g in ([1, 2, 3] if quick else [1, 2, 3, 5]):
+            if g >= n:
+                continue
+            for re_mode in ([1, 2, 3, 4, 7, 8, 13, 14] if quick else range(1, 19)):
+                sc.append(("simple", n, g, 1, rng.randrange(1 << 30), 0, re_mode))
+            sc.append(("auto", n, g, 1, rng.randrange(1 << 30), 0, rng.choice([1, 2, 7, 8])))
+    for _ in range(1000 if quick else 10000):
+        n = rng.choice([2, 3, 4, 5, 8, 13, 16, 33, 64])
+        sc.append((rng.choice(["simple", "auto"]), n, rng.choice([1, 2, 3]), rng.choice([2, 3, 4, 8]), rng.randrange(1 << 30),
+                   rng.choice([0, 30, 100]), rng.randrange(1, 19)))
+    sc.sort(key=lambda x: 0 if x[6] and x[3] == 1 else 1)       # the deterministic one-thread re-entrant scenarios first
+    lines = [scan_line(x) for x in sc]
+    # forced real steal AFTER the left sibling has completed (the case that only `is_stolen(ed)` decides)
+    fs = [(n, g) for n in (4, 6, 8, 16) for g in (1, 2) if g * 2 < n] * (3 if quick else 10)
+    flines = ["fsteal %d %d 300" % x for x in fs]
+    fouts, fcr = run_lines(ck.exe_real, flines, timeout=600)
     outs, crashes = run_lines(ck.exe_real, lines, timeout=1800)
-    bad_mon, bad_val, bad_corr = [], [], []
+    crashes = crashes + [(len(lines) + k, rc, e) for k, rc, e in fcr]
+    bad_mon, bad_val, bad_corr, bad_steal = [], [], [], []
     q, qi = [], []
-    nzomb = 0
-    for i, (s, o) in enumerate(zip(sc, outs)):
-        part, n, g, T, seed, delay = s
+    nzomb = nearly = 0
+    not_run(ck, "scan", outs + fouts, crashes, lines + flines)
+    for i, (x, o) in enumerate(zip(sc, outs)):
+        part, n, g, T, seed, delay, re_mode = x
+        if o == SKIPPED:
+            continue
         d = parse_kv(o)
         if o is None or "value" not in d:
             bad_val.append((i, "harness crashed / no output"))
@@ -781,23 +1202,29 @@ def run_scan(ck):
         m = scan_monitor(evs, n)
         if m:
             bad_mon.append((i, m))
+        sd = steal_discipline(evs) if T > 1 else None
+        if sd:
+            bad_steal.append((i, sd))
         if d.get("overflow") == "1":
             continue
-        stolen, execs = scan_oracle(evs, g)
+        stolen, execs, early = scan_oracle(evs, g, bool(re_mode))
         nzomb += len(stolen)
-        ck.count(1, ("scan", part, min(n, 40), g, T, min(len(stolen), 5), min(len(execs), 3)))
-        q.append("scan %d 0 %d S %s E %s" % (g, n, " ".join("%d %d" % r for r in stolen), " ".join("%d %d" % r for r in execs)))
+        nearly += len(early)
+        ck.count(1, ("scan", part, min(n, 40), g, T, min(len(stolen), 5), min(len(execs), 3), min(len(early), 5), re_mode))
+        q.append("scan %d 0 %d S %s E %s Y %s" % (g, n, " ".join("%d %d" % r for r in stolen), " ".join("%d %d" % r for r in execs),
+                                                 " ".join("%d %d" % r for r in early)))
         qi.append((i, evs))
-        if i % 83 == 0:
+        if i % 83 == 0 or (re_mode and i % 37 == 0):
             ck.sample({"engine": "E-REAL", "scenario": lines[i], "stolen_right_children": stolen[:6], "kept_whole": execs[:6],
-                       "final_scans": sorted((e[2], e[3]) for e in evs if e[0] == "F")[:8]}, cap=12)
+                       "right_children_run_inside_a_left_leaf_body": early[:6],
+                       "final_scans": sorted((e[2], e[3]) for e in evs if e[0] == "F")[:8]}, cap=14)
     mo = drv("c06", "\n".join(q) + "\n", timeout=1800) if q else []
     for (i, evs), line in zip(qi, mo):
         md = parse_kv(line)
         mev = []
         for e in md.get("log", []):
             mev.append(e)
-        a = canon_scan([tuple(e[:-1]) for e in evs if e[0] not in ("D", "X")], False)
+        a = canon_scan([tuple(e[:-1]) for e in evs if e[0] not in ("D", "X", "E")], False)
         b = canon_scan([tuple(e) for e in mev], True)
         if a != b or md.get("err") != "0":
             k = first_diff(a, b)
@@ -805,17 +1232,69 @@ def run_scan(ck):
                 md.get("err"), a[k] if k is not None and k < len(a) else None, b[k] if k is not None and k < len(b) else None)))
         else:
             ck.traces_validated += 1
+    # forced steals
+    nforced = 0
+    fbad = []
+    for i, ((n, g), o) in enumerate(zip(fs, fouts)):
+        if o == SKIPPED:
+            continue
+        d = parse_kv(o)
+        v = scan_verdict(o, n)
+        nforced += d.get("forced") == "1"
+        ck.count(1, ("fsteal", n, g, d.get("forced")))
+        if v:
+            fbad.append((i, v))
     ck.extra["scan_runs"] = len(sc)
     ck.extra["scan_stolen_right_children_observed"] = nzomb
-    ck.oblige("monitor:parallel_scan final pass exactly once per element with the in-order prefix of everything to its left",
-              "correspondence", not bad_mon and not crashes, "" if not bad_mon else "%s: %s" % (lines[bad_mon[0][0]], bad_mon[0][1][1]))
-    ck.oblige("monitor:parallel_scan returns the full reduction", "correspondence", not bad_val,
+    ck.extra["scan_right_children_run_inside_a_left_leaf_body"] = nearly
+    ck.extra["scan_reentrant_runs"] = sum(1 for x in sc if x[6])
+    ck.extra["scan_forced_steal_runs"] = "%d of %d runs had the right child stolen while the spawner was held after completing the left half" % (nforced, len(fs))
+    ck.oblige("monitor:parallel_scan final pass exactly once per element with the in-order prefix of everything to its left "
+              "(also with re-entrant bodies and forced steals)",
+              "correspondence", not bad_mon and not crashes and not [f for f in fbad if f[1][0] in ("twice", "missed", "prefix", "crash")],
+              "" if not bad_mon else "%s: %s" % (lines[bad_mon[0][0]], bad_mon[0][1][1]))
+    ck.oblige("monitor:parallel_scan returns the full reduction", "correspondence", not bad_val and not [f for f in fbad if f[1][0] == "total"],
               "" if not bad_val else "%s: %s" % (lines[bad_val[0][0]], bad_val[0][1]))
-    ck.oblige("corr:observed pre-scan/final-scan/reverse_join/assign events == Scan model run under the observed steal oracle",
+    ck.oblige("monitor:a really stolen right child (runs on another thread than its spawner) starts on a fresh body, never on its parent's",
+              "correspondence", not bad_steal and not [f for f in fbad if f[1][0] == "stolen-child-shares-body"],
+              "" if not (bad_steal or fbad) else ("%s: %s" % (lines[bad_steal[0][0]], bad_steal[0][1][1]) if bad_steal else "%s: %s" % (flines[fbad[0][0]], fbad[0][1][1])))
+    ck.oblige("corr:observed pre-scan/final-scan/reverse_join/assign events == Scan model run under the observed oracle "
+              "(stolen / run early inside a left leaf body / kept whole)",
               "correspondence", not bad_corr, "" if not bad_corr else "%s: %s" % (lines[bad_corr[0][0]], bad_corr[0][1]))
     fails = [(i, m[0], m[1]) for i, m in bad_mon] + [(i, "total", w) for i, w in bad_val]
-    if fails:
+    re_fails = [f for f in fails if sc[f[0]][6]]
+    if re_fails:
+        # smallest re-entrant scenario: one thread first (deterministic), then small n
+        i, kind, text = min(re_fails, key=lambda f: (sc[f[0]][3], sc[f[0]][1], sc[f[0]][2], sc[f[0]][6]))
+        part, n, g, T, seed, delay, re_mode = sc[i]
+        # is re-entrance needed at all?  the same scenario with an ordinary body
+        plain = scan_line(sc[i][:6] + (0,))
+        po, _ = run_lines(ck.exe_real, [plain] * 3, timeout=120, max_crashes=1)
+        pv = [v for v in (scan_verdict(o, n) for o in po if o != SKIPPED) if v]
+        if pv:
+            ck.counterexample("scan:%s:%s:n=%d:grain=%d:threads=%d" % (pv[0][0], part, n, g, T),
+                              "parallel_scan: %s (scenario `%s`)" % (pv[0][1], plain),
+                              {"engine": "E-REAL", "harness": H + "real.cpp", "stdin": plain, "repeat": 5, "monitor": "scan", "n": n, "observed": pv[0][1]})
+            return
+        ck.counterexample("scan:reentrant-body:%s:n=%d:grain=%d:threads=%d:re=%d:%s" % (part, n, g, T, re_mode, kind),
+                          "parallel_scan whose leaf bodies wait on a task_group inside operator() (the nested wait runs the sibling right child "
+                          "on the same thread, not stolen, while the left sibling is unfinished): %s (scenario `%s`)" % (text, lines[i]),
+                          {"engine": "E-REAL", "harness": H + "real.cpp", "stdin": lines[i], "repeat": 20 if T == 1 else 200, "monitor": "scan", "n": n,
+                           "observed": text})
+    elif fails:
         report_real_failure(ck, "scan", lines, fails)
+    if fbad or bad_steal:
+        if fbad:
+            i, v = min(fbad, key=lambda f: fs[f[0]])
+            line, n = flines[i], fs[i][0]
+            shape = "forced:n=%d:grain=%d" % fs[i]
+        else:
+            i, v = min(bad_steal, key=lambda f: (sc[f[0]][1], sc[f[0]][3]))
+            line, n = lines[i], sc[i][1]
+            shape = "%s:n=%d:grain=%d:threads=%d" % (sc[i][0], sc[i][1], sc[i][2], sc[i][3])
+        ck.counterexample("scan:%s:%s" % (v[0] if v[0] != "stolen-child-shares-body" else "stolen-child-shares-body", shape),
+                          "parallel_scan, right child really stolen after its left sibling completed: %s (scenario `%s`)" % (v[1], line),
+                          {"engine": "E-REAL", "harness": H + "real.cpp", "stdin": line, "repeat": 40, "monitor": "scan", "n": n, "observed": v[1]})
 
 
 # ---------------------------------------------------------------------------------------------
@@ -840,6 +1319,9 @@ def sort_inputs(ck, c):
             a = list(s)
             a[p], a[p + 1] = a[p + 1], a[p]
             res.append(("one-inversion", a))
+    if c in ("lt", "gt", "div3") or not quick:
+        for fam, pos, a in prefix_families(ck, c, nrandom=4 if quick else 30):
+            res.append(("%s:pos=%d" % (fam, pos), a))
     for n in ([20000] if quick else [20000, 100000, 300000]):
         s = sorted_for(c, n)
         res.append(("sorted", s))
@@ -868,10 +1350,13 @@ def run_sort(ck):
     outs, crashes = run_lines(ck.exe_real, lines, timeout=1800)
     bad, uncovered = [], []
     dist = {}
+    not_run(ck, "sort", outs, crashes, [x[:80] for x in lines])
     for i, (m, o) in enumerate(zip(meta, outs)):
         cls, c, a, T = m
+        if o == SKIPPED:
+            continue
         d = parse_kv(o)
-        dist[cls] = dist.get(cls, 0) + 1
+        dist[cls.split(":")[0]] = dist.get(cls.split(":")[0], 0) + 1
         ck.count(1, ("sort", cls, c, min(len(a), 600), d.get("moved")))
         if o is None or "sorted" not in d:
             bad.append((i, "parallel_sort crashed or did not return (rc/timeouts: %s)" % [cr[1] for cr in crashes[:2]]))
@@ -921,7 +1406,19 @@ def run_sort(ck):
               "correspondence", not uncovered,
               "" if not uncovered else "cmp %s n=%d: pair (%d,%d) never compared" % (meta[uncovered[0][0]][1], len(meta[uncovered[0][0]][2]), uncovered[0][1] - 1, uncovered[0][1]))
     cex = None
-    if bad:
+    pbad = [b for b in bad if meta[b[0]][0].startswith("prefix-")]
+    if pbad:
+        # a descent confined to the first ten elements: report the smallest size / earliest family / position as it is
+        i, text = min(pbad, key=lambda b: (len(meta[b[0]][2]), CMPS.index(meta[b[0]][1]), meta[b[0]][0]))
+        cls, c, a, T = meta[i]
+        fam, pos = cls.split(":pos=")
+        ck.counterexample("sort:%s:n=%d:pos=%s:cmp=%s" % (fam, len(a), pos, CMP_NAME[c]),
+                          "parallel_sort(%s, n=%d, %d threads) on an input whose only descent lies in the first ten elements (%s, position %s): %s; "
+                          "first 14 keys %s" % (CMP_NAME[c], len(a), T, fam, pos, text, a[:14]),
+                          {"engine": "E-REAL", "harness": H + "real.cpp", "stdin": "sort %s %d %d %s" % (c, T, len(a), " ".join(map(str, a))),
+                           "repeat": 20, "expect_regex": r"^sorted=1 first_unsorted=-1 perm=1 "})
+        ck.extra["sort_prefix_family_failures"] = sorted({"%s n=%d cmp=%s" % (meta[b[0]][0], len(meta[b[0]][2]), meta[b[0]][1]) for b in pbad})[:40]
+    elif bad:
         i, text = min(bad, key=lambda b: len(meta[b[0]][2]))
         cex = (meta[i], text)
     elif uncovered:
@@ -969,6 +1466,13 @@ def shrink_sort(ck, c, a, T):
 def pure_counterexamples(ck):
     """a broken E-PURE obligation: look for an end-to-end failure first (done by run_sort); otherwise report
     the smallest array on which the split postcondition itself fails on the implementation"""
+    pq = getattr(ck, "pqs_failures", None)
+    if pq and not ck.counterexamples:
+        line, why, meta = min(pq, key=lambda t: (len(t[2][3]), CMPS.index(t[2][2]), t[2][1]))
+        fam, _, pos = meta[1].partition(":pos=")
+        ck.counterexample("sort:%s:n=%d:pos=%s:cmp=%s" % (fam, len(meta[3]), pos, CMP_NAME[meta[2]]),
+                          "parallel_quick_sort (one thread) on class %s: %s; first 14 keys %s" % (meta[1], why, meta[3][:14]),
+                          {"engine": "E-PURE", "harness": H + "pure.cpp", "stdin": line, "monitor": "pqs-sorted"})
     pf = getattr(ck, "pure_failures", None)
     if not pf or ck.counterexamples:
         return
@@ -986,25 +1490,41 @@ def run(ck):
     ck.rule = ("E-PURE: arrays for split_range in classes sorted / reverse / all-equal / one inversion at every position / few distinct keys / "
                "random / organ-pipe, sizes 1-65, 490-520, 1000-4097 (thorough to 30011), comparators <, >, x/3, x/100, x%7; median_of_three and "
                "pseudo_median_of_nine on random arrays; is_divisible for sizes 0-40, 480-530 and large; pretest body on single chunks with one "
-               "inversion at each position. E-REAL: reduce over sizes x grains x {simple,auto,static,affinity} x {LRange,blocked_range} x 1-16 "
-               "threads x seeds (seed-dependent busy waits perturb the steal pattern); deterministic reduce x {simple,static} x thread counts; "
-               "scan x {simple,auto}; sort x input classes x comparators x sizes around 500 and large. distinct = distinct "
-               "(operation, class, comparator/partitioner, size bucket, threads, number of observed body splits / outcome prefix)")
+               "inversion at each position; parallel_quick_sort (one thread) on inputs whose descents are confined to the first ten elements "
+               "(one smaller key / step down / step + rising tail at every position 0..11, random non-increasing heads; sizes 500-2048; <, >, key/3) "
+               "and one inversion at positions 0..12. E-REAL: reduce over sizes x grains x {simple,auto,static,affinity} x {LRange,blocked_range} x "
+               "1-16 threads x seeds (seed-dependent busy waits perturb the steal pattern); deterministic reduce x {simple,static} x thread counts; "
+               "scan x {simple,auto}; reduce / deterministic reduce / scan with RE-ENTRANT leaf bodies (task_group::wait inside operator(), before / in the "
+               "middle of / after the body's work, task_group tasks placed under every 1st/2nd/3rd right child, optionally a nested parallel_for) on one "
+               "thread (deterministic: every right child runs nested inside a left leaf) and on 2-8 threads; scan with a forced real steal of the "
+               "root's right child after the left half completed; sort x input classes (incl. the first-ten-elements families, sizes 499/500/501/777/2048) "
+               "x comparators x sizes around 500 and large. distinct = distinct (operation, class, comparator/partitioner, size bucket, threads, "
+               "number of observed body splits / stolen / nested right children / outcome prefix, re-entrance mode)")
     ck.assumptions += [
         "reduce model: task tree with per-node ref count / left_body / zombie, one step per atomic action; the schedule (positions x actions) "
-        "is the oracle and subsumes every steal pattern, partitioner and grain size; values in the free monoid",
+        "is the oracle and subsumes every steal pattern, partitioner and grain size — and re-entrant bodies: a right child that its owner pops "
+        "inside a left leaf's body call is a right child that starts while the parent's ref count is still 2; the lazy-split guard is the "
+        "generated one (must be `is_right_child && ref == 2` whatever is_stolen says); values in the free monoid",
         "deterministic reduce model: eager split, free-magma values; static_partitioner's proportional split is modelled for size < 65536 and "
         "divisor <= 64 (where the binary32 formula is exact); its tree also depends on the partition divisor (= arena concurrency), by design of oneTBB",
-        "scan model: big-step over the task tree with an oracle for is_stolen / should_execute_range (theorem for every oracle); big-step is "
-        "justified by the code's own argument: a right child that is not stolen runs after the left task on the same thread and "
-        "`m_left_sum == &m_body` can only have been written by a leaf that ran sequentially on that body; the two children of a sum_node "
-        "in pass 2 are evaluated right-then-left, the model flags (err) and the theorem excludes that they share a body",
-        "sort model: split_range / medians / is_divisible / serial probe / pretest body; std::sort on leaves is a hypothesis (sorted permutation); "
-        "parallel_for's tiling of the pretest range and its split decisions are taken from C05 (hypothesis `tiles`, oracle `Dec`)",
+        "scan model: big-step over the task tree with an oracle per right child: `stolen` (is_stolen(ed)), `exec` (should_execute_range) and `early` "
+        "(the child is popped by its owner inside a leaf body of its left sibling — re-entrant body — i.e. not stolen, left sibling unfinished, "
+        "m_left_sum still null; it is evaluated BEFORE the left subtree); the theorem holds for every oracle, over the generated treat_as_stolen "
+        "guard.  A late, unstolen right child is evaluated after the left subtree (it runs on the thread that finished the left task; `m_left_sum == "
+        "&m_body` can only have been written by a leaf that ran sequentially on that body); an `early` child is modelled at the start of the left "
+        "part rather than in the middle of one of its leaf body calls (the body call is atomic in the model); a really stolen task that would read "
+        "m_left_sum is flagged (err) instead of modelling the race; the two children of a sum_node in pass 2 are evaluated right-then-left, the "
+        "model flags (err) and the theorem excludes that they share a body",
+        "sort model: split_range / medians / is_divisible / serial probe (generated loop range and argument order) / pretest body (generated argument "
+        "order); std::sort on leaves is a hypothesis (sorted permutation); parallel_for's tiling of the pretest range and its split decisions are "
+        "taken from C05 (hypothesis `tiles`, oracle `Dec`)",
         "not modelled: cancellation and exceptions inside reduce/scan bodies (join skipped when cancelled), affinity replay, memory orders "
         "(the acquire on m_ref_count / release on m_right_zombie are assumed to publish the body), lambda_reduce_body/lambda_scan_body wrappers",
-        "E-REAL samples schedules of real threads; monitors flag only what the property forbids"]
-    ck.trusted += ["checks/c06.py (event canonicalisation, oracle reconstruction, monitors)", "harness/c06/*.cpp (recording bodies, LRange)",
+        "E-REAL samples schedules of real threads; monitors flag only what the property forbids, plus one discipline monitor: a right child of "
+        "parallel_scan that runs on another thread than its spawner must start on a fresh body (on x86-TSO continuing on the parent's body after the "
+        "left sibling completed gives the right values; it is a data race on the body in the C++ model, which is what the code's own comment excludes)"]
+    ck.trusted += ["checks/c06.py (guard / probe translators, event canonicalisation, oracle reconstruction, monitors)",
+                   "harness/c06/*.cpp (recording bodies, LRange, re-entrant bodies, forced steal)",
                    "correspondence is sampled (differential), not proved"]
     import time
     times = ck.extra["stage_seconds"] = {}
@@ -1045,6 +1565,21 @@ def replay(ck, obj):
         a = [int(x) for x in w[3:]]
         bad = "crash" if outs[0] is None else check_split_post(w[1], a, outs[0])
         print("replay of %s: %s -> %s" % (obj.get("key"), line[:120], bad or "split postcondition holds now"))
+        return 1 if bad else 0
+    if r.get("monitor") in ("scan", "reduce"):
+        rep = r.get("repeat", 20)
+        outs, cr = run_lines(exe, [line] * rep, timeout=900)
+        vs = [scan_verdict(o, r["n"]) if r["monitor"] == "scan" else reduce_verdict(o, r["n"]) for o in outs]
+        bad = [v for v in vs if v]
+        print("replay of %s: `%s` x %d: %d failing runs" % (obj.get("key"), line[:160], rep, len(bad)))
+        if bad:
+            print("  e.g. %s: %s" % bad[0])
+        return 1 if bad else 0
+    if r.get("monitor") == "pqs-sorted":
+        outs, cr = run_lines(exe, [line], timeout=300)
+        d = parse_kv(outs[0])
+        bad = outs[0] is None or d.get("sorted") != "1" or d.get("perm") != "1"
+        print("replay of %s: parallel_quick_sort on %s… -> %s" % (obj.get("key"), line[:80], (outs[0] or "crash")[:120]))
         return 1 if bad else 0
     if r.get("monitor") == "det-order":
         outs, cr = run_lines(exe, [line] * r.get("repeat", 5), timeout=300)
